@@ -64,6 +64,12 @@ class RigI(Rig):
         return (self.pump_alive() and "P" not in self.parked and self.pending_discover is None and self.pending_connect is None
                 and self.nf_future is None)
 
+    def stuck_idle(self):
+        """the pump polls, nobody is inside the manager, and no branch of the pump applies: IDLE with descriptors in place"""
+        m = self.man
+        return (self.pump_blocked_idle() and not self.parked and not self.alive(self.etask) and not self.alive(self.utask)
+                and m.spa_state.name == "IDLE" and m._spa_descriptors is not None)
+
     async def apply(self, label):
         self.deliveries.clear()
         kind = label[0]
@@ -124,7 +130,7 @@ class RigI(Rig):
         for t, nm in ((self.etask, "E"), (self.utask, "U")):
             if t is not None and t.done() and not t.cancelled() and t.exception() is not None:
                 exc.append((nm, repr(t.exception())[:80]))
-        return applicable, self.snapshot(), list(self.deliveries), self.occupancy(), exc, self.abandoned_not_disconnected(), self.facades_dropped_alive()
+        return applicable, self.snapshot(), list(self.deliveries), self.occupancy(), exc, self.abandoned_not_disconnected(), self.facades_dropped_alive(), (applicable and self.stuck_idle())
 
     async def close(self):
         self.free_run = True
